@@ -72,6 +72,8 @@ type Exec struct {
 	specAxioms    []*Term
 	globalRefs    map[string]*Term
 	argNames      map[string]bool
+	afterNames    map[string]bool
+	jsonFreshUsed bool
 	argCells      map[string]*Cell
 	mkstrSeen     map[string]bool
 	zarrSeen      map[string]bool
@@ -617,6 +619,10 @@ func (x *Exec) execFunction(fn *ssa.Function, st *State, args, bind []*Value, co
 				c := &Cell{Name: "called$" + n, T: tBool, ID: x.cellID}
 				x.calledCells[n] = c
 				st.cells[c] = scalar(tBool, False)
+			}
+			x.afterNames = map[string]bool{}
+			for _, n := range calledNames(contract, "after") {
+				x.afterNames[n] = true
 			}
 			x.argNames = map[string]bool{}
 			x.argCells = map[string]*Cell{}
